@@ -51,7 +51,7 @@ func init() {
 		ID:    "C17",
 		Level: "exploration",
 		Rule: "replay corpus = complete cases of the C01, C04, C07, C08, C09, C11, C13, C14, C15, C18, C19 workloads (votes and churn, pool / batches / bridge calls, aging end blocks, conversions and contract programs, precompile call trees, staking precompile, oracle life cycles, migration, gov, tolerated failures, IBC) plus oracle-churn histories that bond 12 oracles and drop / re-admit several of them per governance update. " +
-			"Each history runs in R separate processes (quick 3, thorough 6) with GOMAXPROCS 1/2/16/4, GOGC 100/1/off, TZ and LANG varied; every operation (error text, events, response bytes) and every block (application hash, tx results, events, validator updates) is reduced to a digest line; all traces must be identical. " +
+			"Each history runs in R separate processes (quick 3, thorough 6) with GOMAXPROCS 1/2/16/4, GOGC 100/1/off, TZ and LANG varied, and once more in a binary built with the Go race detector (any report with an fx-core frame is a violation); every operation (error text, events, response bytes) and every block (application hash, tx results, events, validator updates) is reduced to a digest line; all traces must be identical. " +
 			"Non-trivial: a history with at least 5 committed blocks and 20 operations; distinct by history",
 		Assumptions: []string{
 			"operations enter through the message router / EVM keeper on the block's finalize state (as in every other check), so the compared application hash covers their effects and the compared events are theirs",
@@ -60,7 +60,7 @@ func init() {
 		Cases:            c17Cases,
 		Run:              runC17,
 		MinNontrivial:    6,
-		RequiredCounters: []string{"replicas_run", "blocks_compared", "operations_compared", "multi_oracle_drops"},
+		RequiredCounters: []string{"replicas_run", "blocks_compared", "operations_compared", "multi_oracle_drops", "race_detector_replicas"},
 	})
 }
 
@@ -483,7 +483,13 @@ func runC17(cs core.Case, verbose bool) core.CaseResult {
 	// one more replica under the Go race detector (check.sh builds that binary with -race and names it in
 	// VERIF_RACE_BIN): block execution that starts goroutines sharing the context, the gas meter or a store is
 	// reported as a data race whatever the schedule of this run happened to be; its trace is compared as well
-	if rb := os.Getenv("VERIF_RACE_BIN"); rb != "" {
+	rb := os.Getenv("VERIF_RACE_BIN")
+	if rb == "" {
+		if _, err := os.Stat(self + ".race"); err == nil {
+			rb = self + ".race" // (the name check.sh gives it)
+		}
+	}
+	if rb != "" {
 		out := filepath.Join(tmp, fmt.Sprintf("trace%d.txt", spec.Reps)) // numbered like the others: the comparison below names files by index
 		logp := filepath.Join(tmp, "race")
 		cmd := exec.Command(rb, "-c17child", specPath, "-out", out)
